@@ -1,16 +1,20 @@
 package vanguard
 
-import "net/http"
+import (
+	"bytes"
+	"net/http"
+)
 
 // pickScript forks over backend behaviours. kind:
 //
 //	0 success with messages          1 error end after k messages (symbolic code 1..20, 1-byte message)
 //	2 trailers-only error (gRPC family)  3 handler returns without writing anything
 //	4 bare HTTP error status (symbolic, no RPC status)
+//	5 un-enveloped backend: one complete message, then (second Write) data that exceeds the size limit
 func pickScript(target Protocol, unaryKind bool, svcComp bool) (*respScript, int) {
 	enveloped := target == ProtocolGRPC || target == ProtocolGRPCWeb || (target == ProtocolConnect && !unaryKind)
 	s := &respScript{}
-	kind := verifChoose("script", 5)
+	kind := verifChoose("script", 6)
 	s.comp = svcComp && verifChoose("respComp", 2) == 1
 	switch kind {
 	case 0:
@@ -46,6 +50,11 @@ func pickScript(target Protocol, unaryKind bool, svcComp bool) (*respScript, int
 		}
 	case 3:
 		return nil, kind
+	case 5:
+		// (un-enveloped backends) a complete message followed, in a second Write, by data beyond the size limit
+		if enveloped {
+			return nil, 2 // not applicable: skipped like an inapplicable trailers-only script
+		}
 	}
 	return s, kind
 }
@@ -99,8 +108,20 @@ func hC03Pipe() {
 		bare = &bareBackend{status: bareStatuses[verifChoose("status", len(bareStatuses))], declareLen: verifChoose("declareLen", 2) == 1}
 		p.tr.methods[pipePath].handler = bare
 	}
+	overLimitCalls := 0
+	if kind == 5 {
+		p.tr.methods[pipePath].maxMsgBufferBytes = 64
+		whole := encodeMsg(p.backend.codec, wireMsg{abstract: []byte{'w'}})
+		p.tr.methods[pipePath].handler = http.HandlerFunc(func(w http.ResponseWriter, r *http.Request) {
+			overLimitCalls++
+			readAllSized(r.Body, 16, 100)
+			w.Header().Set("Content-Type", p.backendContentType())
+			w.Write(whole)
+			w.Write(bytes.Repeat([]byte{'z'}, 70))
+		})
+	}
 	p.serve(reqMsgs)
-	out := refParseClientResponse(cfg, p.sink, p.backend.rec.calls > 0 || (bare != nil && bare.calls > 0))
+	out := refParseClientResponse(cfg, p.sink, p.backend.rec.calls > 0 || (bare != nil && bare.calls > 0) || overLimitCalls > 0)
 	verifObsInt("status", int64(p.sink.status))
 	if out.valid && out.code == 0 {
 		verifObsBytes("client-body", p.sink.body) // error texts come from library messages the models do not reproduce
@@ -125,7 +146,7 @@ func hC03Pipe() {
 	if !out.valid {
 		return
 	}
-	if p.backend.rec.calls == 0 && (bare == nil || bare.calls == 0) {
+	if p.backend.rec.calls == 0 && (bare == nil || bare.calls == 0) && overLimitCalls == 0 {
 		verifReach("rejected-before-dispatch")
 		verifAssert(out.code != 0, "C03: a rejected request is reported as an error")
 		return
@@ -167,6 +188,9 @@ func hC03Pipe() {
 		if target == ProtocolGRPC || target == ProtocolGRPCWeb || (target == ProtocolConnect && !unaryKind) {
 			verifAssert(out.code != 0, "C09: missing terminal status is not a success")
 		}
+	case 5:
+		verifReach("over-limit-after-message")
+		verifAssert(out.code != 0, "C03: a response that outgrows the size limit is not reported as success")
 	case 4:
 		verifReach("bare-http-error")
 		verifAssert(out.code != 0, "C03: bare HTTP failure is an error")
